@@ -141,6 +141,11 @@ def _judge(S, obs, T, req, out, tag):
                'finite_rows': np.flatnonzero(r['mask']).tolist()}
         if not np.all(np.isfinite(a)):
             return 'C17:adjust:nonfinite-output' + tag, det, cnt, None, None
+        at_obs = np.all(r['X'] == 0, axis=1)
+        if at_obs.any():
+            cnt['rows_at_observed'] += int(at_obs.sum())
+            if np.any(np.abs(a[at_obs] - r['t'][at_obs]) > 1e-12 * np.maximum(1.0, np.abs(r['t'][at_obs]))):
+                return 'C17:adjust:row-at-observed-changed' + tag, det, cnt, None, None
         if r['full_rank']:
             cnt['full_rank'] += 1
             if not np.allclose(a, r['adjusted'], rtol=RTOL, atol=ATOL):
@@ -149,11 +154,6 @@ def _judge(S, obs, T, req, out, tag):
             cnt['rank_deficient'] += 1
             if not ref.is_some_ls_adjustment(r['X'], r['t'], a):
                 return 'C17:adjust:not-a-least-squares-adjustment:rank-deficient' + tag, det, cnt, None, None
-        at_obs = np.all(r['X'] == 0, axis=1)
-        if at_obs.any():
-            cnt['rows_at_observed'] += int(at_obs.sum())
-            if np.any(np.abs(a[at_obs] - r['t'][at_obs]) > 1e-12 * np.maximum(1.0, np.abs(r['t'][at_obs]))):
-                return 'C17:adjust:row-at-observed-changed' + tag, det, cnt, None, None
         outcome.append((PN[j], np.round(a, 9) + 0.0))
     return None, None, cnt, outcome, infos
 
@@ -531,7 +531,7 @@ def _run_blocks(ctx, blocks, section):
         ctx.record(b, out['res'], section)
         ctx.outcomes.update(out['outs'])
         for sub, r in out['viols']:
-            r = dict(r, evals=0)
+            r = dict(r, evals=0, trivial=True)     # already counted in the block's evals/distinct
             ctx.record(sub, r, section)
         if i == 0 and out['first'] is not None:
             ctx.add_sample(out['first'], key=(section, 'first'))
